@@ -129,14 +129,54 @@ func runC20(p *core.Prog, r *core.Report) {
 	r.Check(okSig, "C20-R1", "Done sends the signal the launcher listens for", p.FuncPos(doneFn), "both are "+notifySig, "Done sends "+sent+" but the launcher listens for "+notifySig)
 
 	// ---- R2
+	// the blocking wait may live in the launcher or in a helper it calls synchronously
 	var sel *ssa.Select
+	selFn := launcher
+	var waitPoint ssa.Instruction // the select itself, or the launcher's call of the helper that always passes it
+	paramArg := map[ssa.Value]ssa.Value{}
 	sx.Instrs(launcher, func(in ssa.Instruction) {
 		if s, ok := in.(*ssa.Select); ok && s.Blocking {
-			sel = s
+			sel, waitPoint = s, in
 		}
 	})
 	if sel == nil {
-		r.Fail("C20-R2", fnName(launcher)+": blocking wait", p.FuncPos(launcher), "no blocking select in the launcher")
+		sx.Instrs(launcher, func(in ssa.Instruction) {
+			c, ok := in.(*ssa.Call)
+			if !ok {
+				return
+			}
+			callee := sx.StaticCallee(c)
+			if callee == nil || !p.InModule(callee) || callee.Blocks == nil {
+				return
+			}
+			var hs *ssa.Select
+			sx.Instrs(callee, func(i2 ssa.Instruction) {
+				if s, ok := i2.(*ssa.Select); ok && s.Blocking {
+					hs = s
+				}
+			})
+			if hs == nil {
+				return
+			}
+			// every path of the helper passes the select
+			all := true
+			for _, ret := range sx.Returns(callee) {
+				if sx.ReachInstr(callee, nil, ret, sx.Cut{Instrs: map[ssa.Instruction]bool{hs: true}}) {
+					all = false
+				}
+			}
+			if all {
+				sel, selFn, waitPoint = hs, callee, in
+				for i, a := range c.Call.Args {
+					if i < len(callee.Params) {
+						paramArg[callee.Params[i]] = a
+					}
+				}
+			}
+		})
+	}
+	if sel == nil {
+		r.Fail("C20-R2", fnName(launcher)+": blocking wait", p.FuncPos(launcher), "no blocking select in the launcher (or in a helper it always runs through)")
 	} else {
 		var problems []string
 		sawSig, sawExit := false, false
@@ -145,10 +185,14 @@ func runC20(p *core.Prog, r *core.Report) {
 				problems = append(problems, "select has a send arm")
 				continue
 			}
+			ch := st.Chan
+			if a, ok := paramArg[sx.Unspill(stripChanConv(ch))]; ok {
+				ch = a
+			}
 			switch {
-			case notifyChan != nil && sameChan(st.Chan, notifyChan):
+			case notifyChan != nil && sameChan(ch, notifyChan):
 				sawSig = true
-			case closedAfterWait(p, launcher, st.Chan):
+			case closedAfterWait(p, selFn, st.Chan):
 				sawExit = true
 			default:
 				problems = append(problems, "extra arm receiving from "+sx.ValPath(st.Chan)+" ("+keys(sx.Origins(st.Chan))+"): the launcher can return although neither Done() was called nor the daemon exited")
@@ -161,9 +205,9 @@ func runC20(p *core.Prog, r *core.Report) {
 			problems = append(problems, "no arm receives from a channel that is closed after cmd.Wait returned")
 		}
 		r.Check(len(problems) == 0, "C20-R2", fnName(launcher)+": select arms are exactly {signal, daemon exit}", p.Pos(sel.Pos()), "2 receive arms: hand-shake signal, daemon-exit channel", strings.Join(problems, "; "))
-		// every return after a successful Start passes the select
+		// every return after a successful Start passes the wait
 		_, nonNil := sx.NilEdges(startCall)
-		c2 := sx.Cut{Instrs: map[ssa.Instruction]bool{sel: true}, Edges: nonNil}
+		c2 := sx.Cut{Instrs: map[ssa.Instruction]bool{waitPoint: true}, Edges: nonNil}
 		okAll := len(nonNil) > 0
 		for _, ret := range sx.Returns(launcher) {
 			if sx.ReachInstr(launcher, startCall, ret, c2) {
@@ -173,7 +217,7 @@ func runC20(p *core.Prog, r *core.Report) {
 		r.Check(okAll, "C20-R2", fnName(launcher)+": returns only through the wait", p.Pos(startCall.Pos()), "after a successful Start every return passes the blocking select", "after a successful Start the launcher can return without waiting for Done() or the daemon's exit")
 		// exit channel closed only after Wait
 		okClose, nClose := true, 0
-		for _, fn := range sx.WithClosures(launcher) {
+		for _, fn := range sx.WithClosures(selFn) {
 			sx.Instrs(fn, func(in ssa.Instruction) {
 				c, ok := in.(*ssa.Call)
 				if !ok {
@@ -193,7 +237,7 @@ func runC20(p *core.Prog, r *core.Report) {
 				}
 			})
 		}
-		r.Check(okClose && nClose > 0, "C20-R2", fnName(launcher)+": exit channel closed after cmd.Wait", p.FuncPos(launcher), fmt.Sprintf("%d close call(s), each after cmd.Wait", nClose), "the daemon-exit channel can be closed before cmd.Wait returned")
+		r.Check(okClose && nClose > 0, "C20-R2", fnName(launcher)+": exit channel closed after cmd.Wait", p.FuncPos(selFn), fmt.Sprintf("%d close call(s), each after cmd.Wait", nClose), "the daemon-exit channel can be closed before cmd.Wait returned")
 	}
 
 	// ---- R3
@@ -217,7 +261,7 @@ func runC20(p *core.Prog, r *core.Report) {
 				okW = false
 				detail = "the pid is written on a path where cmd.Start did not succeed"
 			}
-			if sel != nil && !sx.MustPass(launcher, nil, sel, sx.Cut{Instrs: map[ssa.Instruction]bool{w: true}, Edges: func() map[sx.Edge]bool { _, nn := sx.NilEdges(startCall); return nn }()}) {
+			if waitPoint != nil && !sx.MustPass(launcher, nil, waitPoint, sx.Cut{Instrs: map[ssa.Instruction]bool{w: true}, Edges: func() map[sx.Edge]bool { _, nn := sx.NilEdges(startCall); return nn }()}) {
 				okW = false
 				detail = "the wait can be reached without the pid having been written"
 			}
@@ -432,4 +476,17 @@ func closedAfterWait(p *core.Prog, fn *ssa.Function, ch ssa.Value) bool {
 		})
 	}
 	return found
+}
+
+func stripChanConv(v ssa.Value) ssa.Value {
+	for {
+		switch x := v.(type) {
+		case *ssa.ChangeType:
+			v = x.X
+		case *ssa.Convert:
+			v = x.X
+		default:
+			return v
+		}
+	}
 }
